@@ -396,6 +396,36 @@ Section RegistryProof.
   Qed.
 End RegistryProof.
 
+(* B5: a setting made by update survives every interleaving with first uses (lazy get) *)
+Section CowProof.
+  Variable Rep : Type.
+  Variable dflt : Rep.
+  Variable g : Rep -> Rep.
+  Variable P : Rep -> Prop.
+  Hypothesis Pg : forall b, P (g b).
+
+  Definition cow_init (th0 : nat -> ath (option Rep * nat) (option Rep)) : Prop :=
+    forall j, Forall (fun b => b = cw_body dflt CwGet \/ b = cw_body dflt (CwUpd g)) (a_todo (th0 j)).
+
+  Lemma cow_lemma th0 log s :
+    cow_init th0 -> aexec (ainit (None, O) th0) log s -> a_hold s = None ->
+    snd (a_sh s) = O \/ exists b, fst (a_sh s) = Some b /\ P b.
+  Proof.
+    intros Hi Hex Hh. destruct (linearizable_lemma _ _ _ _ _ _ Hex Hh) as [Hs _]. rewrite Hs.
+    apply (seq_run_ind _ _ (fun c => (forall j, Forall (fun b => b = cw_body dflt CwGet \/ b = cw_body dflt (CwUpd g)) (a_todo (snd c j))) /\
+                                   (snd (fst c) = O \/ exists b, fst (fst c) = Some b /\ P b))).
+    - split; [exact Hi | left; reflexivity].
+    - intros c i [Hf Hp]. unfold seq_step. destruct (a_todo (snd c i)) as [|b r] eqn:Et; [split; assumption|].
+      pose proof (Hf i) as Hfi. rewrite Et in Hfi. inversion Hfi as [|b' r' Hb Hr]; subst b' r'.
+      destruct Hb as [->| ->]; cbn [cw_body run_body fst snd]; split.
+      + intros j. destruct (Nat.eq_dec j i) as [->|Hj]; [rewrite upd_eq; exact Hr | rewrite upd_neq by exact Hj; apply Hf].
+      + destruct Hp as [H0|[b0 [Hb0 HP]]]; [left; exact H0|]. right. exists b0. split; [|exact HP].
+        unfold cw_cur. rewrite Hb0. reflexivity.
+      + intros j. destruct (Nat.eq_dec j i) as [->|Hj]; [rewrite upd_eq; exact Hr | rewrite upd_neq by exact Hj; apply Hf].
+      + right. eexists. split; [reflexivity | apply Pg].
+  Qed.
+End CowProof.
+
 (* B3: sync.Once: the body runs once, every caller that has returned reads the value it computed *)
 Section OnceProof.
   Variables A V : Type.
